@@ -440,15 +440,7 @@ func (b *bench2) dryParse(hr *HReq) []Item {
 
 func start2(c *Case2) *runner2 {
 	n := len(l2kinds)
-	b := &bench{dials: make([][]bool, n), release: make([]chan bool, n), inflight: make([]bool, n),
-		goahead: make([]chan bool, n), before: make([]bool, n)}
-	for i := range b.release {
-		b.release[i] = make(chan bool)
-		b.goahead[i] = make(chan bool)
-		if i < len(c.Dials) {
-			b.dials[i] = append([]bool(nil), c.Dials[i]...)
-		}
-	}
+	b := newBench(make([]int, n), c.Dials)
 	b2 := &bench2{bench: b, rid: map[string]int64{}, nextRid: 1, status: map[int]int{}}
 	b.l2 = b2
 	r := &runner2{c: c, b: b2}
